@@ -71,6 +71,9 @@ fn prop(r: &mut Rng, name: &str) -> ProfileProperty {
     }
 }
 
+/// every configured message ends in characters whose Java "modified UTF-8" form differs from UTF-8
+pub const MSG_TAIL: &str = "\u{1F600}\0\u{e9}\u{20ac}";
+
 impl Conc {
     pub fn new(r: &mut Rng) -> Self {
         let names_a = ["Steve", "Alex_0123456789a", "Jörg_Ünï", "a", "N0tch"];
@@ -84,9 +87,12 @@ impl Conc {
         let vouched_props = (0..nv).map(|k| prop(r, &format!("textures{k}"))).collect();
         let nc = 1 + r.below(2) as usize;
         let cookie_props = (0..nc).map(|k| prop(r, &format!("ck{k}"))).collect();
-        let v6 = r.below(3) == 0;
-        let client_addr: SocketAddr = if v6 {
+        let form = r.below(4);
+        let client_addr: SocketAddr = if form == 0 {
             format!("[2001:db8::{:x}]:{}", 1 + r.below(0xfffe), 1024 + r.below(60000)).parse().unwrap()
+        } else if form == 1 {
+            // IPv4-mapped IPv6: what a dual-stack listener or a PROXY TCP6 header reports for an IPv4 client
+            format!("[::ffff:198.51.100.{}]:{}", 1 + r.below(250), 1024 + r.below(60000)).parse().unwrap()
         } else {
             format!("198.51.100.{}:{}", 1 + r.below(250), 1024 + r.below(60000)).parse().unwrap()
         };
@@ -111,7 +117,12 @@ impl Conc {
         );
         targets.insert("t9".into(), mk("outside", format!("192.0.2.9:{}", ports[r.below(4) as usize]), &[("x", "y")]));
         let slen = [1usize, 32, 200][r.below(3) as usize];
-        let secret_s = r.bytes(slen);
+        let mut secret_s = r.bytes(slen);
+        match r.below(6) {
+            0 => *secret_s.last_mut().unwrap() = b'\n', // a secret read from a file with its trailing newline
+            1 => secret_s[0] = b' ',
+            _ => {}
+        }
         let mut secret_s2 = r.bytes(slen);
         if secret_s2 == secret_s {
             secret_s2[0] ^= 1;
@@ -122,7 +133,7 @@ impl Conc {
         for t in ["de_DE", "fr", "en_US"] {
             let mut m = HashMap::new();
             for k in ["disconnect_no_target", "disconnect_timeout"] {
-                m.insert(k.to_string(), format!("MSG|{k}|{t}"));
+                m.insert(k.to_string(), format!("MSG|{k}|{t}|{MSG_TAIL}"));
             }
             loc_tables.insert(t.to_string(), m);
         }
@@ -934,12 +945,15 @@ impl Client {
             (DPhase::Config, 2) => {
                 // text component: TAG_String
                 let msg = match (c.u8(), c.u16()) {
-                    (Some(8), Some(n)) => c.take(n as usize).and_then(|b| String::from_utf8(b.to_vec()).ok()),
+                    (Some(8), Some(n)) => c.take(n as usize).and_then(crate::refcodec::mutf8_decode),
                     _ => None,
                 };
                 let Some(m) = msg else { return bad("Disconnect") };
+                if c.rest() != 0 {
+                    return bad("Disconnect: bytes behind the text component");
+                }
                 let parts: Vec<&str> = m.split('|').collect();
-                if parts.len() == 3 && parts[0] == "MSG" {
+                if parts.len() == 4 && parts[0] == "MSG" && parts[3] == MSG_TAIL {
                     json!({"k": "Disconnect", "msg": [parts[1], parts[2]]})
                 } else {
                     json!({"k": "Disconnect", "msg": [m, "raw"]})
@@ -1078,6 +1092,9 @@ pub struct Timed {
     /// pipelined client: the Encryption Response is cut at this offset; its rest arrives in ONE segment together with the
     /// (already encrypted) Login Acknowledged and Client Information -- the plaintext/ciphertext switch falls inside a segment
     pub pipeline: Option<usize>,
+    /// the client idles this many seconds before it sends the named frame of the login prefix
+    /// ("LoginStart" | "CookieResponse" | "EncryptionResponse")
+    pub pre_delay: Option<(String, u64)>,
 }
 
 impl Timed {
@@ -1094,6 +1111,7 @@ impl Timed {
             wstall: v.get("wstall").and_then(|p| Some((p["at"].as_u64()?, p["k"].as_u64()? as usize, p["release"].as_u64()?))),
             wsplit: v.get("wsplit").and_then(|p| p.as_u64()).map(|k| k as usize),
             pipeline: v.get("pipeline").and_then(|p| p.as_u64()).map(|k| k as usize),
+            pre_delay: v.get("preDelay").and_then(|p| Some((p["frame"].as_str()?.to_string(), p["secs"].as_u64()?))),
         }
     }
 }
@@ -1201,8 +1219,20 @@ pub async fn run_round(
                 if ev["e"] != "rx" {
                     continue;
                 }
+                if let Some((fr, secs)) = &tm.pre_delay {
+                    if ev["f"]["k"] == fr.as_str() {
+                        // an idle client: whatever the server sends meanwhile is recorded in order
+                        for _ in 0..*secs {
+                            tokio::time::sleep(Duration::from_secs(1)).await;
+                            cl.drain(ms(t0) / 1000);
+                        }
+                    }
+                }
+                if server.is_finished() {
+                    break;
+                }
                 if let Action::Send(b) = cl.build(&ev["f"]) {
-                    cl.push(json!({"e": "rx", "f": ev["f"], "t": 0}));
+                    cl.push(json!({"e": "rx", "f": ev["f"], "t": ms(t0) / 1000}));
                     if let (Some(cut), true) = (tm.pipeline, ev["f"]["k"] == "EncryptionResponse") {
                         let ack = json!({"k": "LoginAck"});
                         let info = json!({"k": "ClientInfo", "locale": tm.locale});
